@@ -31,6 +31,7 @@ def load_units(prop):
 def _worker(job):
     prop, idx, case, tier, seed = job
     mod, units = load_units(prop)
+    units = [u for u in units if not getattr(u, 'tiers', None) or tier in u.tiers]
     u = units[idx]
     registry = {x.name: x for x in units if isinstance(x, C.Contract)}
     return run_unit(u, tier, seed, registry, case)
@@ -81,6 +82,7 @@ def main(argv):
     seed = int(os.environ.get('VERIF_SEED', '0') or 0)
     t0 = time.time()
     mod, units = load_units(prop)
+    units = [u for u in units if not getattr(u, 'tiers', None) or tier in u.tiers]
     jobs = []
     for i, u in enumerate(units):
         if isinstance(u, C.Contract) and len(u.cases) > 1:
